@@ -54,3 +54,18 @@ impl PoolState {
     { unimplemented!() }
 }
 pub assume_specification<T> [bool::then_some::<T>] (b: bool, t: T) -> (r: Option<T>) ensures r == (if b { Some(t) } else { None::<T> });
+impl Denom {
+    #[verifier::external_body] pub fn to_bytes(self) -> (r: Bytes) ensures r@ == denom_bytes(self) { unimplemented!() }
+}
+impl PartialEq for Bytes { #[verifier::external_body] fn eq(&self, o: &Bytes) -> (r: bool) { unimplemented!() } }
+impl PartialEqSpecImpl<Bytes> for Bytes { open spec fn obeys_eq_spec() -> bool { true } open spec fn eq_spec(&self, o: &Bytes) -> bool { self@ == o@ } }
+impl PartialOrdSpecImpl<Bytes> for Bytes {
+    open spec fn obeys_partial_cmp_spec() -> bool { true }
+    open spec fn partial_cmp_spec(&self, other: &Bytes) -> Option<core::cmp::Ordering> {
+        if bytes_lt(self@, other@) { Some(core::cmp::Ordering::Less) } else if self@ == other@ { Some(core::cmp::Ordering::Equal) } else { Some(core::cmp::Ordering::Greater) } }
+}
+impl PartialOrd for Bytes { #[verifier::external_body] fn partial_cmp(&self, o: &Bytes) -> (r: Option<core::cmp::Ordering>) { unimplemented!() } }
+/// the pool a request names: PoolKey::from_bytes, canonical spellings only
+pub open spec fn spec_req_key(data: Seq<u8>) -> Option<PoolKey> {
+    match spec_pk_from_bytes(data) { Some(k) => if pk_canonical(k) { Some(k) } else { None }, None => None }
+}
